@@ -34,7 +34,7 @@ MODES = [('none', None), ('start', 'start'), ('end', 'end'), ('mid', 'mid')]
 
 # ---------------------------------------------------------------------------------------------------- running average
 
-PROP_MODULES = ['C17', 'C17Gen', 'C17Gen2', 'C17Butter', 'C17Rolling', 'C17GenRolling']
+PROP_MODULES = ['C17', 'C17Gen', 'C17Gen2', 'C17Butter', 'C17Rolling', 'C17GenRolling', 'C17ButterBand']
 
 def ra_spec(orig, w):
     n = len(orig)
